@@ -190,6 +190,9 @@ def cases(draw: Any) -> Dict[str, Any]:
         req['target'] = b'http://example.test:80' + draw(G.path_query())
     elif tv == 2:
         req['target'] = b'http://example.test/'
+    elif tv == 3:
+        # no path, and a query that itself contains path and authority delimiters
+        req['target'] = b'http://example.test' + draw(st.sampled_from([b'?next=/home', b'?u=a@b/c', b'?a=1#frag/x', b':80?x=/y/z', b'?/', b'?q=http://other.test/p']))
     extras = []
     if draw(st.integers(0, 2)) == 0:
         extras.append([G._recase(draw, 'Proxy-Connection').encode(), b'keep-alive', draw(st.integers(0, 3))])
